@@ -155,6 +155,19 @@ fn sibling_sweep(run: &Arc<Run>, bases: &[RefPos]) {
         }
     });
     run.add("piece_square_keys_exercised", keys.lock().unwrap().len() as u64);
+    {
+        let k = keys.lock().unwrap();
+        let mut missing = vec![];
+        for s in 0..64u8 {
+            for c in 1..=12u8 {
+                if !k.contains(&(s, c)) {
+                    let (kind, col) = decode(c).unwrap();
+                    missing.push(format!("{}{}", piece_char(kind, col), sq_name(s)));
+                }
+            }
+        }
+        run.note("piece_square_keys_not_exercised_by_siblings", json!(missing));
+    }
     if let Some(b) = bases.first() {
         run.sample(json!({"kind": "sibling base", "fen": b.fen(), "variants": "each square := each of 13 contents, other side to move, all 16 rights sets, all 9 ep-file states; invalid or rejected variants skipped; variants grouped by observable position"}));
     }
@@ -171,6 +184,21 @@ pub fn run(tier: Tier) -> i32 {
     bases.extend((0..ep.size()).step_by(stride as usize).filter_map(|i| ep.get(i)));
     for f in three_man_families() {
         bases.extend((0..f.size()).step_by((stride * 23) as usize).filter_map(|i| f.get(i)));
+    }
+    // every king on every square at least once (a king key is only exercised by a base that has it)
+    for s in 0..64u8 {
+        for far in [63u8, 0, 7, 56] {
+            let mut p = RefPos::empty();
+            p.put(s, Kind::K, Col::W);
+            if p.bd[far as usize] == 0 {
+                p.put(far, Kind::K, Col::B);
+                if p.is_valid() {
+                    bases.push(p);
+                    bases.push(p.mirror_v());
+                    break;
+                }
+            }
+        }
     }
     let cf = CastleFamily { extras: 1, opp_rights: true, opp_to_move: false };
     bases.extend((0..cf.size()).step_by(stride as usize).filter_map(|i| cf.get(i)));
